@@ -455,7 +455,25 @@ def concrete_roundtrip(rep):
         std = base64.b64encode(raw).decode()
         if len(std) != 4 * ((len(raw) + 2) // 3) or std.rstrip("=") + "=" * ((3 - len(raw) % 3) % 3) != std:
             bad.append(("b64_contract", d))
-    return len(docs), bad
+    # sequences in one process: the same dictionary object encoded again after an in-place edit, and
+    # decodes of dictionaries with fewer keys after dictionaries with more keys (state between calls)
+    sess = {"code": "x = 1\n", "compact": False, "flags": [1, 2]}
+    steps = [lambda d: None, lambda d: d.__setitem__("code", d["code"] + "d1.On = 0\n"), lambda d: d.__setitem__("compact", True), lambda d: d["flags"].append(3), lambda d: d.pop("compact")]
+    for i_, st_ in enumerate(steps):
+        st_(sess)
+        try:
+            back = decode_data(encode_data(sess))
+            if back != sess:
+                bad.append((f"sequence step {i_}: round trip of an edited dictionary returns an earlier state / other keys: {str(back)[:120]}", dict(sess)))
+            if back is sess:
+                bad.append((f"sequence step {i_}: decode_data returns the caller's object", dict(sess)))
+        except Exception as ex:
+            bad.append((f"sequence step {i_}: raises {type(ex).__name__}: {ex}", dict(sess)))
+    first = decode_data(encode_data({"code": "a", "comments": True, "compact": True}))
+    second = decode_data(encode_data({"code": "b"}))
+    if second != {"code": "b"} or first != {"code": "a", "comments": True, "compact": True}:
+        bad.append((f"sequence: keys of an earlier decoded link leak into a later one: {second}", {"code": "b"}))
+    return len(docs) + len(steps) + 2, bad
 
 
 def run(tier: str) -> int:
